@@ -156,7 +156,7 @@ func remaining(c *Ctx, p *prop) string {
 func (g *Governance) newBatch(c *Ctx) []hist.TxSpec {
 	us := c.W.Users
 	var out []hist.TxSpec
-	plans := []string{"pass", "fail", "cancel", "miss", "expire", "config"}
+	plans := []string{"pass", "fail", "cancel", "miss", "expire", "config", "giveup1", "giveup2"}
 	for i, pl := range plans {
 		p := &prop{id: PropID(fmt.Sprintf("%s/%s/%d/%d", g.Tag, pl, c.H, i)), plan: pl, proposer: us[3+i%2], created: c.H, fundDl: c.H + 5, typ: governance.ProposalTypeGeneral}
 		cfg := ""
@@ -224,7 +224,7 @@ func (g *Governance) Plan(c *Ctx) []hist.TxSpec {
 			}
 		}
 		switch p.plan {
-		case "pass", "fail", "config", "expire":
+		case "pass", "fail", "config", "expire", "giveup1", "giveup2":
 			if store == "propActive" && rec.Status == int(governance.ProposalStatusFunding) {
 				switch age {
 				case 1:
@@ -246,6 +246,23 @@ func (g *Governance) Plan(c *Ctx) []hist.TxSpec {
 						sp := BuildFee(c, "EXPIRE_VOTES", &govact.ExpireVotes{ProposalID: governance.ProposalID(p.id), ValidatorAddress: u.Addr}, txb.Fee("1000000000", 400000), fmt.Sprintf("expiry requested by an outsider at height %d, voting deadline %d", c.H, rec.VotingDeadline), u)
 						sp.Meta = map[string]string{"proposal": p.id}
 						out = append(out, sp)
+					}
+					continue
+				}
+				if p.plan == "giveup1" || p.plan == "giveup2" {
+					// the strongest validator gives up, the next one (giveup2: the next two) votes no, nobody else
+					// votes: the no share counts among those who did not give up
+					if age == 4 {
+						cancel := Build(c, "PROPOSAL_CANCEL", &govact.CancelProposal{ProposalId: governance.ProposalID(p.id), Proposer: p.proposer.Addr, Reason: "too late"}, "cancel by the proposer while the proposal is being voted on (must fail)", p.proposer)
+						cancel.Meta = map[string]string{"proposal": p.id}
+						out = append(out, cancel)
+						out = append(out, g.vote(c, p, genVals[len(genVals)-1], governance.OPIN_GIVEUP))
+					}
+					if age == 5 {
+						out = append(out, g.vote(c, p, genVals[len(genVals)-2], governance.OPIN_NEGATIVE))
+					}
+					if age == 6 && p.plan == "giveup2" && len(genVals) > 2 {
+						out = append(out, g.vote(c, p, genVals[len(genVals)-3], governance.OPIN_NEGATIVE))
 					}
 					continue
 				}
@@ -333,6 +350,11 @@ func (g *Governance) Plan(c *Ctx) []hist.TxSpec {
 		case "miss":
 			if store == "propActive" && age == 1 {
 				out = append(out, g.fund(c, p, us[4], "1234567890", "fund a little (will miss)"))
+			}
+			if c.H == p.fundDl+1 && store == "propActive" {
+				cancel := Build(c, "PROPOSAL_CANCEL", &govact.CancelProposal{ProposalId: governance.ProposalID(p.id), Proposer: p.proposer.Addr, Reason: "too late"}, "cancel by the proposer after the funding deadline (must fail)", p.proposer)
+				cancel.Meta = map[string]string{"proposal": p.id}
+				out = append(out, cancel)
 			}
 			if c.H > p.fundDl {
 				f := us[4]
